@@ -2,5 +2,5 @@
 # tools/coqchk_one.sh Cxx : independent re-check of build/Cxx/Props_Cxx.vo and everything it depends on; axioms to trusted_base/
 pid=$1
 cd /verif/build/$pid || exit 2
-( time timeout 3000 coqchk -silent -o -Q /verif/coq WG -Q . Gen$pid Gen$pid.Props_$pid ) > /verif/trusted_base/coqchk_$pid.txt 2>&1
+( time timeout 10000 coqchk -silent -o -Q /verif/coq WG -Q . Gen$pid Gen$pid.Props_$pid ) > /verif/trusted_base/coqchk_$pid.txt 2>&1
 echo "$pid coqchk rc=$? $(grep -c 'Axiom\|axiom' /verif/trusted_base/coqchk_$pid.txt)"
